@@ -27,6 +27,7 @@ WHAT = {
  'Optional of its first member': ("C14", "Union[int, str, None] -> Optional[int] accepted: a str lands in an Optional[int] field (sound_U_int_str_none sel=2)"),
  'generic NamedTuple': ("C16", "class NT(NamedTuple, Generic[T]): NT[int] handled by the iterable provider: {'x': 1, 'y': [1]} rejected, [1, [2]] -> bare TypeError (case_NT_int)"),
  'name sanitizer kept': ("C19", "model named 'A\u00b2' / 'A\u2460' -> SyntaxError in the generated loader; 'A\u00aa' -> NameError in the generated converter (names_build; K-name/1 sanitizer_alphabet)"),
+ 'zero denominator': ("C04", "Fraction strict and lax loaders: '0/0' / '1/0' -> ZeroDivisionError escaped (E2 kernel kexc_fraction_*: datum '0/0')"),
 }
 WHAT.update(json.load(open('/verif/tools/fixed_extra.json')) if __import__('os').path.exists('/verif/tools/fixed_extra.json') else {})
 log = subprocess.run(["git", "-C", "/repo", "log", "--format=%h %s"], capture_output=True, text=True).stdout.splitlines()
